@@ -230,7 +230,7 @@ func (r *c09Run) checkShapes(i int, cls string) {
 		if rr.IntN(2) == 0 {
 			flt = fmt.Sprintf("(filter: {books: {rating: {_ge: %v}}})", x)
 		}
-		q := fmt.Sprintf(`query { User%s { _docID _count(books: {filter: {rating: {_gt: %v}}}) _sum(books: {field: rating}) } }`, flt, y)
+		q := fmt.Sprintf(`query { User%s { _docID _count(books: {filter: {rating: {_gt: %v}}}) _sum(books: {field: rating}) _min(books: {field: rating}) _max(books: {field: rating}) _avg(books: {field: rating}) } }`, flt, y)
 		data, ok := r.q(i, q)
 		if !ok {
 			return
@@ -239,18 +239,35 @@ func (r *c09Run) checkShapes(i int, cls string) {
 		for _, row := range rows(data, "User") {
 			u := fmt.Sprint(row["_docID"])
 			seen[u] = true
-			cnt, sum := 0, 0.0
+			cnt, sum, rated := 0, 0.0, 0
+			lo, hi := math.Inf(1), math.Inf(-1)
 			for _, b := range booksOf[u] {
-				if r.books[b].rating > y {
+				v := r.books[b].rating
+				if math.IsNaN(v) {
+					continue
+				}
+				if v > y {
 					cnt++
 				}
-				sum += r.books[b].rating
+				sum += v
+				rated++
+				lo, hi = math.Min(lo, v), math.Max(hi, v)
 			}
 			gc, _ := fnum(row["_count"])
 			gs, _ := fnum(row["_sum"])
 			if int(gc) != cnt || math.Abs(gs-sum) > 1e-9 {
 				r.res.violate("C09", "aggregate-disagrees", "count-sum/"+cls, i, "%s: user %s _count=%v _sum=%v, from its books count=%d sum=%v", q, u, row["_count"], row["_sum"], cnt, sum)
 				return
+			}
+			if rated > 0 {
+				gmin, okMin := fnum(row["_min"])
+				gmax, okMax := fnum(row["_max"])
+				gavg, okAvg := fnum(row["_avg"])
+				if !okMin || !okMax || gmin != lo || gmax != hi || !okAvg || math.Abs(gavg-sum/float64(rated)) > 1e-9 {
+					r.res.violate("C09", "aggregate-disagrees", "min-max-avg/"+cls, i, "%s: user %s _min=%v _max=%v _avg=%v, the ratings of its books give min=%v max=%v avg=%v (of %d rated books, %d listed)",
+						q, u, row["_min"], row["_max"], row["_avg"], lo, hi, sum/float64(rated), rated, len(booksOf[u]))
+					return
+				}
 			}
 		}
 		for u := range r.users {
